@@ -538,6 +538,7 @@ impl<'a> Gen<'a> {
             let mut f = FileSpec {
                 path: p.clone(),
                 tab_tags: self.rng.chance(1, 10),
+                bom: self.rng.chance(1, 10),
                 ..Default::default()
             };
             for _ in 0..nb {
